@@ -30,6 +30,13 @@ def _has_quantifier(e, _memo={}):
     return res
 
 
+class _LazySeq:
+    """sequence given by (length, element function): what enumerate/zip/reversed of symbolic sequences denote inside a comprehension"""
+
+    def __init__(s, n, elem):
+        s.n, s.at = n, elem
+
+
 class OutOfSubset(Exception):
     pass
 
@@ -745,8 +752,20 @@ class Engine:
                 s.assumed.add("engine lemma: a range with one value filtered out (exact; cross-checked natively by the kernel's twin)")
                 yield SSeq(arr, z3.simplify(z3.If(inside, n - 1, n)), "int", "list"), p1
             return
-        for it, p1 in s.ev(g.iter, p):
-            xs = s.iter_seq(it, p1)
+        def sources():
+            if isinstance(g.iter, ast.Call) and isinstance(g.iter.func, ast.Name) and g.iter.func.id in ("enumerate", "zip", "reversed") and not p.has(g.iter.func.id) and hasattr(s, "loop_items"):
+                for kind, pay, p1 in s.loop_items(g.iter, p):
+                    if kind == "items":
+                        yield STup(pay), p1
+                    elif kind == "seq":
+                        yield _LazySeq(*pay), p1
+                    else:
+                        raise OutOfSubset("comprehension over a set")
+                return
+            for it, p1 in s.ev(g.iter, p):
+                yield s.iter_seq(it, p1), p1
+
+        for xs, p1 in sources():
             n_c = z3.simplify(xs.n)
             if z3.is_int_value(n_c) and n_c.as_long() <= 12:
                 # concrete length: element-wise evaluation (forks), no quantifiers
@@ -755,7 +774,7 @@ class Engine:
                         yield list(acc), p0
                         return
                     q = p0.fork()
-                    s.assign(g.target, xs.at(z3.IntVal(k)) if isinstance(xs, SSeq) else xs.items[k], q)
+                    s.assign(g.target, xs.items[k] if isinstance(xs, STup) else xs.at(z3.IntVal(k)), q)
                     conds = list(s.ev_list(g.ifs, q)) if g.ifs else [([], q)]
                     for cv, q1 in conds:
                         c = z3.simplify(z3.And(*[s.truth(x) for x in cv])) if cv else z3.BoolVal(True)
